@@ -1,7 +1,7 @@
-"""Per-property check definitions."""
-import re, random
-import core, run, gen
-from core import Check
+"""Per-property check definitions (obligations, jobs = cases + correspondence + oracle)."""
+import os, re, random, subprocess, itertools
+import build, core, run, gen
+from core import Check, Job
 
 CHECKS = {}
 
@@ -15,16 +15,22 @@ def lines_of(cases):
     return [c.hex() + ("\t" + p if p else "") for c, p in cases]
 
 
-def n_docs(tier, quick, thorough):
-    return thorough if tier == "thorough" else quick
+def size(tier, quick, thorough, search=None):
+    if tier == "thorough":
+        return thorough
+    if tier == "search":
+        return search if search is not None else quick * 3
+    return quick
+
+
+def is_obs(x):
+    return not x.startswith(("PANIC", "HANG", "CRASH", "BADHEX", "ERR"))
 
 
 # ---- projections of the tree dump -------------------------------------------------------------
 RE_B = re.compile(r"\(B (\d+) (-?\d+) (-?\d+) (-?\d+) (\d+) (\d+) (-?\d+)")
 RE_I = re.compile(r"\(I (\d+) (-?\d+) (-?\d+) (-?\d+) ([0-9a-f]*)")
 RE_R = re.compile(r"\(R (-?\d+) (-?\d+) (-?\d+) ([0-9a-f]*) ")
-
-
 RE_REFS = re.compile(r" M(\([0-9a-f ]*\))*")
 
 
@@ -34,10 +40,6 @@ def strip_refs(d):
 
 def proj_headers(d):
     return " ".join("%s:%s:%s:%s" % m for m in RE_R.findall(d)) + (" CODE" if " CODE" in d else "")
-
-
-def proj_headers_noline(d):
-    return " ".join("%s:%s:%s" % m[1:] for m in RE_R.findall(d)) + (" CODE" if " CODE" in d else "")
 
 
 def proj_spans(d):
@@ -75,58 +77,113 @@ def proj_leaves(d):
     return " | ".join(out) + (" CODE" if " CODE" in d else "")
 
 
-def proj_full_noline(d):
-    return RE_R.sub(lambda m: "(R %s %s %s " % (m.group(2), m.group(3), m.group(4)), d)
+def proj_refs(d):
+    """reference map + the reference of every link/image node"""
+    m = RE_REFS.search(d)
+    refs = m.group(0) if m else ""
+    links = " ".join("%s:%s" % (k, r) for k, _, _, _, r in RE_I.findall(d) if k in ("9", "10", "13"))
+    return refs + " | " + links
 
 
-def tree_corr(proj, impl_mode="full", model_mode="full"):
-    def f(self, cases):
+def proj_status(d):
+    if d.startswith(("PANIC", "HANG", "CRASH")):
+        return d.split(" ")[0]
+    return "CODE" if " CODE" in d else "ok"
+
+
+def ident(d):
+    return d
+
+
+def two_sided(impl_mode, model_mode, proj=ident, what="observation"):
+    """correspondence: run both sides on the same lines and compare projected observations"""
+    def f(cases):
         ls = lines_of(cases)
         a = run.harness(impl_mode, ls)
         b = run.model(model_mode, ls)
         out = []
         for i, (x, y) in enumerate(zip(a, b)):
-            px, py = proj(x) if not x.startswith(("PANIC", "HANG", "CRASH")) else x, proj(y)
+            px = proj(x) if is_obs(x) else x
+            py = proj(y)
             if px != py:
-                out.append((i, px, py, "projected tree dump"))
+                out.append((i, px, py, what))
         return out
     return f
 
 
-class TreeCheck(Check):
-    rule = ("documents: corpus (652 spec examples + recorded failures) first, then seeded token soup over Markdown "
-            "fragments / corpus mutants / line soups (NUL, CR, CRLF, tabs, invalid UTF-8 mixed in); non-trivial = "
-            "non-empty; distinct by bytes")
-    n_quick, n_thorough = 3000, 200000
+def tree_render_corr(which="html"):
+    """renderer/formatter tie: the model renderer (formatter) run on the implementation's own tree dump
+    must reproduce the implementation's bytes.  cases carry the configuration index as param."""
+    def f(cases):
+        ls = lines_of(cases)
+        a = run.harness("treehtml", ls)
+        m_in = []
+        for x, (c, p) in zip(a, cases):
+            parts = x.split("\t")
+            m_in.append((parts[0] if len(parts) == 3 else "") + "\t" + (p or "0"))
+        b = run.model("treehtml", m_in)
+        out = []
+        for i, (x, y) in enumerate(zip(a, b)):
+            xp, yp = x.split("\t"), y.split("\t")
+            if len(xp) != 3:
+                out.append((i, x[:300], y[:300], "implementation did not produce a dump"))
+                continue
+            if len(yp) != 2:
+                out.append((i, x[:300], y[:300], "model could not read the dump"))
+                continue
+            if which in ("html", "both") and xp[1] != yp[0]:
+                out.append((i, xp[1], yp[0], "HTML of the implementation's tree (cfg %s)" % cases[i][1]))
+            elif which in ("fmt", "both") and xp[2] != yp[1]:
+                out.append((i, xp[2], yp[1], "Format output of the implementation's tree"))
+        return out
+    return f
 
-    def cases(self, seed, tier):
-        return [(d, "") for d in gen.docs(seed, n_docs(tier, self.n_quick, self.n_thorough))]
+
+DOC_RULE = ("documents: corpus (652 spec examples + recorded failures) first, then seeded token soup over Markdown "
+            "fragments / corpus mutants / line soups (NUL, CR, CRLF, tabs, invalid UTF-8 mixed in); non-trivial = "
+            "non-empty; distinct by (bytes, parameter)")
+
+
+def docs(seed, tier, quick=3000, thorough=200000, **kw):
+    return gen.docs(seed, size(tier, quick, thorough), **kw)
+
+
+class TreeCheck(Check):
+    rule = DOC_RULE
+    proj = staticmethod(ident)
+    what = "tree dump"
+
+    def jobs(self, seed, tier):
+        cases = [(d, "") for d in docs(seed, tier)]
+        return [Job("documents", cases, corr=two_sided("full", "full", self.proj, self.what), judge_mode="judge:" + self.prop)]
 
 
 # ---- C01 -----------------------------------------------------------------------------------------
-class C01(TreeCheck):
+class C01(Check):
+    rule = DOC_RULE
     obligations = [("main", "C01a", "C01_ordered"), ("main", "C01b", "unpadded_pad"), ("main", "C01b", "fill_pad"),
                    ("main", "C01b", "lineCount_pad"), ("main", "C01b", "pad_app"), ("main", "L2BndS", "parseBlocks_bounds"),
                    ("stream", "BPProof", "next_block_sim"), ("stream", "C08", "C08_stream_eq")]
-    corr_name = "root-block headers (StartLine, offsets, Source) of model vs Parse and vs NextBlock"
     assumptions = ["aliasing of Source with the caller's buffer and non-modification of the buffer are memory facts: observed on the implementation by the oracle (pointer comparison, copy comparison), not proved",
-                   "tiling beyond source order/disjointness (gap bytes blank, line-boundary ends) is decided by the correspondence plus the oracle on sampled inputs; C01_ordered, parseBlocks_bounds and the padding lemmas are the proved part"]
+                   "proved for every input: source order and disjointness (C01_ordered), ends bounded by the line read (parseBlocks_bounds), padding bookkeeping; gap bytes blank and line-boundary ends are decided by the correspondence plus the oracle on sampled inputs"]
 
-    def correspond(self, cases):
-        ls = lines_of(cases)
-        a = run.harness("full", ls)
-        s = run.harness("blocks", ls)
-        b = run.model("blocks", ls)
-        out = []
-        for i in range(len(ls)):
-            pm = proj_headers(b[i])
-            pa = proj_headers(a[i]) if a[i].startswith("(") or a[i] == "" or a[i].startswith(" M") else a[i]
-            ps = proj_headers(s[i]) if s[i].startswith("(") or s[i] == "" else s[i]
-            if pa != pm:
-                out.append((i, pa, pm, "Parse headers"))
-            elif ps != pm:
-                out.append((i, ps, pm, "NextBlock headers"))
-        return out
+    def jobs(self, seed, tier):
+        cases = [(d, "") for d in docs(seed, tier, bad=0.1)]
+
+        def corr(cases):
+            ls = lines_of(cases)
+            a, s, b = run.harness("full", ls), run.harness("blocks", ls), run.model("blocks", ls)
+            out = []
+            for i in range(len(ls)):
+                pm = proj_headers(b[i])
+                pa = proj_headers(a[i]) if is_obs(a[i]) else a[i]
+                ps = proj_headers(s[i]) if is_obs(s[i]) else s[i]
+                if pa != pm:
+                    out.append((i, pa, pm, "root-block headers via Parse"))
+                elif ps != pm:
+                    out.append((i, ps, pm, "root-block headers via NextBlock"))
+            return out
+        return [Job("root-block headers", cases, corr=corr, judge_mode="judge:C01")]
 
 
 reg(C01("C01"))
@@ -134,8 +191,8 @@ reg(C01("C01"))
 
 class C02(TreeCheck):
     obligations = [("main", "L2BndS", "parseBlocks_bounds"), ("main", "C01a", "C01_ordered"), ("main", "NoPanicAll", "parseBlocks_no_panic")]
-    corr_name = "span structure (every node's span, nesting, child order) of model parse vs Parse"
-    correspond = tree_corr(proj_spans)
+    proj = staticmethod(proj_spans)
+    what = "span structure"
     assumptions = ["partial: proved are the bounds of block ends and inline entries by the line read so far (every input); nesting, sibling order and character boundaries are decided by the correspondence plus the span oracle on sampled inputs"]
 
 
@@ -144,8 +201,8 @@ reg(C02("C02"))
 
 class C03(TreeCheck):
     obligations = [("main", "L2BndS", "parseBlocks_bounds"), ("main", "NoUnpFull", "C05_noUnparsed")]
-    corr_name = "leaf spans (inline leaves and list markers, in order) of model parse vs Parse"
-    correspond = tree_corr(proj_leaves)
+    proj = staticmethod(proj_leaves)
+    what = "leaf spans"
     assumptions = ["partial: the coverage statement itself is decided by the correspondence plus the coverage oracle on sampled inputs"]
 
 
@@ -155,9 +212,15 @@ reg(C03("C03"))
 class C05(TreeCheck):
     obligations = [("main", "L2CCfull", "parseFull_contain"), ("main", "L2Kind2", "parseBlocks_kinds"), ("main", "NoUnpFull", "C05_noUnparsed"),
                    ("main", "Clos12full", "C12_closure"), ("main", "Rec16", "ordered_number_range")]
-    corr_name = "node kinds and accessor values (heading level, ordered, tight, item number, indent, reference) of model parse vs Parse"
-    correspond = tree_corr(proj_kinds)
+    proj = staticmethod(proj_kinds)
+    what = "node kinds and accessor values"
     assumptions = ["partial: proved for every input: canContain closure, entry kinds per block kind, no Unparsed node, reference closure, item number range; the remaining grammar clauses are decided by the correspondence plus the grammar oracle"]
+
+    def jobs(self, seed, tier):
+        js = TreeCheck.jobs(self, seed, tier)
+        cases = js[0].cases[: max(500, len(js[0].cases) // 4)]
+        js.append(Job("streaming + Extract + Rewrite", cases, corr=two_sided("fullstream", "full", proj_kinds, "kinds via NextBlock/Extract/Rewrite")))
+        return js
 
 
 reg(C05("C05"))
@@ -166,9 +229,598 @@ reg(C05("C05"))
 class C13(TreeCheck):
     obligations = [("main", "Rec16", "parseListMarker_sound"), ("main", "Rec17", "parseCodeFence_sound"), ("recog", "ATXProof", "parseATXHeading_correct"),
                    ("main", "Rec15", "parseSetext_correct")]
-    corr_name = "(kind, span) of every node of model parse vs Parse"
-    correspond = tree_corr(proj_kindspans)
+    proj = staticmethod(proj_kindspans)
+    what = "(kind, span) of every node"
     assumptions = ["partial: the recognizer theorems give the shape at creation for list markers, fences, ATX and setext lines; the other shapes are decided by the correspondence plus the shape oracle"]
 
 
 reg(C13("C13"))
+
+
+# ---- C04 -----------------------------------------------------------------------------------------
+def hostile(seed, n):
+    rng = random.Random(seed ^ 0x5a5a)
+    out = []
+    deep = [b"> " * 600 + b"a\n", b"- " * 400 + b"a\n", b"[" * 800 + b"a" + b"]" * 800, b"*" * 700 + b"a" + b"*" * 700, b"`" * 301 + b"a", b"<" * 500,
+            b"1. " * 300 + b"x", b"![" * 500, b"\\" * 999, b"&" * 300 + b"#" * 300, b"<!--" + b"-" * 500, b"[a](" + b"(" * 300, b"_" * 500 + b"a" + b"_" * 499,
+            b"```" + b"\n" * 100, b"\r" * 200, b"\x00" * 300, b"\t" * 300 + b"x", b"> " * 300 + b"```\n" + b"> " * 299 + b"x", (b"- a\n" + b"  " * 50) * 30]
+    out += deep
+    closers = [b"`", b"``", b"[", b"![", b"<", b"<!--", b"<![CDATA[", b"<?", b"(", b"[a](", b"[a](<", b"[a](/u \"", b"*", b"_", b"&", b"&#", b"\\", b"```", b"~~~", b"<a href=\"", b"[a]: ", b"[a]: /u \"", b"\r", b"\xc3", b"\xe2\x82", b"\xf0\x9f\x98"]
+    while len(out) < n:
+        body = gen.soup(rng, nmax=10, bad=0.2)
+        out.append(body + rng.choice(closers))
+    return out
+
+
+class C04(Check):
+    rule = DOC_RULE + "; plus hostile inputs: nesting hundreds deep, every construct left unterminated at end of input, invalid UTF-8, NUL and CR runs"
+    obligations = [("main", "NoPanicAll", "parseBlocks_no_panic"), ("main", "RecBounds", "atx_bounds"), ("main", "CursorX", "consume_all"),
+                   ("walk", "W2P", "run_refines_spec"), ("stream", "ReaderProof", "readline_sim"), ("misc", "Sticky", "C20_healthy")]
+    assumptions = ["partial: proved: the block layer never reports a panic site (every input), Walk terminates with fuel 2*size+1, readline terminates under any schedule, the renderer/formatter models are total by construction; fuel sufficiency of the line loop and of the inline parser are observed (the model never reports a fuel code on any case) rather than proved",
+                   "'does not loop forever' on the implementation is a 20 s watchdog per case"]
+
+    def jobs(self, seed, tier):
+        cases = [(d, "") for d in docs(seed, tier, quick=1500, thorough=60000, bad=0.15)]
+        hcases = [(d, "") for d in hostile(seed, size(tier, 400, 6000))]
+        return [Job("documents", cases, corr=two_sided("full", "full", proj_status, "termination status"), judge_mode="judge:C04"),
+                Job("hostile", hcases, corr=two_sided("full", "full", proj_status, "termination status"), judge_mode="judge:C04")]
+
+
+reg(C04("C04"))
+
+
+# ---- C07 -----------------------------------------------------------------------------------------
+ATTR_TOKENS = [t.encode() for t in ["![", "[", "](", ")", "\"", "'", "<", ">", "&", "&amp;", "&quot;", "&#34;", "&#x3c;", "a", " ", "\n", "(/u \"", "(<", "\\\"", "`", "```", "~~~ \"<>&\n", "[a]: /u \"t\"\n",
+                                         "[a]: <\"> '\"'\n", "[a]", "<http://x\"y>", "<a@b.c>", "onerror=", "=", "*", "_", "\\", "x\"y", "1. ", "9\" ", "\t", "> ", "# "]]
+
+
+def attr_docs(seed, n):
+    rng = random.Random(seed ^ 0xa77)
+    return [gen.soup(rng, nmax=12, toks=ATTR_TOKENS) for _ in range(n)]
+
+
+class C07(Check):
+    rule = DOC_RULE + "; plus a soup weighted on quotes, angle brackets and ampersands in every text-bearing position (alt, title, destination, info string, label, code, autolink)"
+    obligations = [("main", "C07final", "C07_final"), ("main", "SafeW", "C07_render_safeW"), ("main", "Safe", "C07_render_safe"), ("main", "L2BndS", "parseBlocks_bounds"),
+                   ("main", "L2Kind", "parseBlocks_kinds")]
+    assumptions = ["C07_final is the property's statement on the model for every input; C07_render_safeW covers every tree whose leaves satisfy bokW, and the run evaluates bokW on the implementation's own trees, so the theorem applies to each of them given the renderer tie",
+                   "the oracle's grammar is stricter than the Coq predicate 'safe' (it also requires every '&' to head a character reference)"]
+
+    def jobs(self, seed, tier):
+        ds = docs(seed, tier, quick=2000, thorough=100000) + attr_docs(seed, size(tier, 1500, 60000))
+        cases = [(d, str(i % 6)) for i, d in enumerate(ds)]
+
+        def leaf(cases):
+            ls = lines_of([(c, "") for c, _ in cases])
+            a = run.harness("full", ls)
+            b = run.model("leafok", [strip_refs(x) + "\t3" for x in a])
+            return [(i, a[i][:500], b[i], "leaf hypothesis bokW of C07_render_safeW on the implementation's tree") for i in range(len(a)) if b[i] != "1"]
+        return [Job("safe configurations", cases, corr=tree_render_corr("html"), judge_mode="judge:C07"),
+                Job("leaf hypothesis", cases[: len(cases) // 2], corr=leaf)]
+
+
+reg(C07("C07"))
+
+
+# ---- C10 -----------------------------------------------------------------------------------------
+class C10(Check):
+    rule = DOC_RULE + "; each document under one of the 30 configurations (3 soft-break behaviours x IgnoreRaw x {nil, GFM, always, never, name set}) in rotation"
+    obligations = [("main", "RenderWalkProof", "C10_appendBlock"), ("main", "WalkG", "walk_is_spec"), ("main", "C10misc", "render_refdef_empty"), ("main", "C10misc", "render_silent_inline"),
+                   ("main", "Entry", "renderDoc_renderRoots")]
+    assumptions = ["the independent reading of the tree is the structural renderer renderB of the model (one clause per kind, accessor models); C10_appendBlock proves that Walk with the renderer's callbacks equals it; the run applies it to the implementation's own tree dump",
+                   "determinism, tree/Source untouched, block joining and empty output for definitions are observed on the implementation by the oracle (pure model cannot exhibit mutation)"]
+
+    def jobs(self, seed, tier):
+        ds = docs(seed, tier, quick=3000, thorough=150000)
+        cases = [(d, str((i * 7 + seed) % 30)) for i, d in enumerate(ds)]
+        return [Job("tree -> HTML", cases, corr=tree_render_corr("html"), judge_mode="judge:C10")]
+
+
+reg(C10("C10"))
+
+
+# ---- C20 -----------------------------------------------------------------------------------------
+class C20(Check):
+    rule = DOC_RULE + "; writer failing at every call index up to 40 (first clause); canonical-style documents from the abstract-document generator (second clause)"
+    obligations = [("misc", "Sticky", "C20_sticky"), ("misc", "Sticky", "C20_first_error"), ("misc", "Sticky", "C20_healthy"), ("main", "Entry", "formatDoc_formatRoots")]
+    assumptions = ["clause 1 proved on the formatWriter model for any operation sequence; clause 2 (round trip on the construct set fixed in DESIGN.md section 7) is decided by the oracle on generated canonical documents, not proved",
+                   "determinism and 'tree untouched' are observed on the implementation"]
+
+    def jobs(self, seed, tier):
+        import docgen
+        ds = docs(seed, tier, quick=1500, thorough=60000)
+        cases = [(d, "0") for d in ds]
+        canon = [(md, "") for md, _ in docgen.documents(seed, size(tier, 800, 30000), style="format")]
+        return [Job("format of the implementation's tree", cases, corr=tree_render_corr("fmt"), judge_mode="judge:C20"),
+                Job("canonical documents round trip", canon, judge_mode="judge:C20rt")]
+
+
+reg(C20("C20"))
+
+
+# ---- C17 -----------------------------------------------------------------------------------------
+RAW_TOKENS = [t.encode() for t in ["<", ">", "</", "/>", "<script>", "</script>", "<SCRIPT ", "<sCript\n", "<style>", "<title>", "<textarea>", "<xmp>", "<iframe ", "<noembed>", "<noframes>", "<plaintext>",
+                                        "<!--", "-->", "<!-->", "<!--->", "--!>", "<![CDATA[", "]]>", "<?", "?>", "<!DOCTYPE ", "<!x", "<a href=\"", "\"", "'", "=", " ", "\n", "\n\n", "a", "b", "<b>", "<div>", "</div>",
+                                        "<3 ", "<-", "< script>", "<script/", "<scriptx>", "<em>", "<p>", "`", "*", "<pre>", "</pre>", "\t", "> ", "- "]]
+
+
+def raw_docs(seed, n):
+    rng = random.Random(seed ^ 0xc17)
+    return [gen.soup(rng, nmax=12, toks=RAW_TOKENS) for _ in range(n)]
+
+
+class C17(Check):
+    rule = "raw-HTML stressors (comments, CDATA, declarations, processing instructions, stray '<', case mixes, raw-text element names) as token soup, plus the general document stream; predicates GFM, reject-all, reject-none and two name sets containing the raw-text elements"
+    obligations = [("filter", "Filter", "filter_relaxed"), ("filter", "Filter", "filter_none_id"), ("filter", "Filter", "filter_lt_ok"), ("filter", "TokProof", "start_tag_origin"),
+                   ("filter", "TokProof", "no_rejected_start"), ("filter", "TokProof", "prefix_closed_names"), ("main", "C17doc", "C17_only_lt_escaped")]
+    assumptions = ["first clause proved for whole documents on the renderer model (C17_only_lt_escaped); second clause proved for filterRaw output against a WHATWG data-state tokenizer fragment (no_rejected_start) for prefix-closed predicates; the oracle uses golang.org/x/net/html's tokenizer on the implementation's output"]
+
+    def jobs(self, seed, tier):
+        ds = raw_docs(seed, size(tier, 2500, 100000)) + docs(seed, tier, quick=1000, thorough=30000)
+        cases = [(d, str(6 + (i % 24))) for i, d in enumerate(ds)]
+        frag = raw_docs(seed + 5, size(tier, 2000, 80000))
+        preds = ["gfm", "all", "none", "set1", "set2"]
+        fcases = [(d, preds[i % 5]) for i, d in enumerate(frag)]
+        jcases = [(d, "") for d in ds]
+        return [Job("tree -> filtered HTML", cases, corr=tree_render_corr("html")),
+                Job("filterRaw on fragments", fcases, corr=two_sided("filterraw", "filterraw", ident, "filterRaw output")),
+                Job("documents x predicates", jcases, judge_mode="judge:C17")]
+
+
+reg(C17("C17"))
+
+
+# ---- C11 -----------------------------------------------------------------------------------------
+EMPH_ALPHA = [b"*", b"_", b"a", b" ", b".", "é".encode(), "“".encode(), " ".encode()]
+
+
+def emph_strings(seed, tier):
+    L = 5 if tier == "quick" else (6 if tier == "search" else 7)
+    out = list(gen.strings_over(EMPH_ALPHA[:6], L))
+    rng = random.Random(seed ^ 0xe11)
+    n = size(tier, 3000, 200000)
+    for _ in range(n):
+        k = 6 + rng.randrange(40)
+        out.append(b"".join(rng.choice(EMPH_ALPHA + [b"**", b"__", b"***", b"*", b"_"]) for _ in range(k)))
+    return out
+
+
+class C11(Check):
+    rule = "all strings up to length 5 (quick) / 7 (thorough) over {*, _, a, space, '.', e-acute}, plus random strings of 6-45 symbols adding a non-ASCII punctuation mark and a no-break space; non-trivial = contains a delimiter run"
+    obligations = [("emph", "EmphProof", "process_emphasis_opt_sound"), ("main", "PEProof", "processEmphasis_opt_sound")]
+    assumptions = ["proved: the openers_bottom search bounds never change the result of the procedure (abstract delimiter lists of any length, and on the transcription of processEmphasis with its tree surgery); flanking flags and the tokeniser are tied by the correspondence; the oracle is an independent Go transcription of the spec procedure without the bound"]
+
+    def jobs(self, seed, tier):
+        cases = [(s, "0") for s in emph_strings(seed, tier)]
+        j = Job("emphasis strings", cases, corr=two_sided("html", "html", ident, "HTML of one-paragraph documents"), judge_mode="judge:C11",
+                nontrivial=lambda c: b"*" in c[0] or b"_" in c[0])
+        return [j]
+
+
+reg(C11("C11"))
+
+
+# ---- C12 -----------------------------------------------------------------------------------------
+LABEL_ATOMS = ["a", "B", "ß", "ss", "SS", "ǰ", "ﬃ", "ffi", "Σ", "σ", "ς", "K", "k", "İ", "i̇", " ", "  ", "\t", "\n", " ", " ", "\\]", "\\[", "é", "É", "1", "!", "Ω", "ω"]
+
+
+def norm_label(s):
+    """CommonMark: strip leading/trailing spaces, tabs, line endings; collapse internal runs; Unicode case fold"""
+    t = re.sub(r"[ \t\r\n]+", " ", s).strip(" ")
+    return t.casefold()
+
+
+def label_docs(seed, n):
+    rng = random.Random(seed ^ 0xc12)
+    out = []
+    while len(out) < n:
+        lab = "".join(rng.choice(LABEL_ATOMS) for _ in range(1 + rng.randrange(5)))
+        if not lab.strip(" \t\n") or lab.startswith("\n") or "\n\n" in lab or lab.strip() != lab and rng.random() < 0.5:
+            continue
+        r = rng.random()
+        if r < 0.4:
+            use = "".join(c.swapcase() if rng.random() < 0.5 else c for c in lab)
+        elif r < 0.6:
+            use = re.sub(" ", lambda m: rng.choice([" ", "  ", "\t", "\n"]), lab)
+        elif r < 0.8:
+            use = "".join(rng.choice(LABEL_ATOMS) for _ in range(1 + rng.randrange(5)))
+        else:
+            use = lab
+        if "\n\n" in use or not use.strip(" \t\n") or "\n\n" in re.sub(r"[ \t]", "", use) or "\n\n" in re.sub(r"[ \t]", "", lab):
+            continue
+        # labels may not contain blank lines or unescaped brackets; atoms only have escaped ones
+        expect = norm_label(lab) == norm_label(use)
+        place = rng.randrange(4)
+        d = "[%s]: /u\n" % lab
+        u = "[%s]\n" % use
+        if place == 0:
+            doc = d + "\n" + u
+        elif place == 1:
+            doc = u + "\n" + d
+        elif place == 2:
+            doc = "> " + d.replace("\n", "\n> ").rstrip("> ") + "\n" + u
+        else:
+            doc = "- " + d.replace("\n", "\n  ").rstrip(" ") + "\n" + u
+        if place >= 2 and "\n" in lab:
+            continue
+        out.append((doc.encode(), "1" if expect else "0"))
+    return out
+
+
+def order_docs(seed, n):
+    """competing definitions in several placements; the oracle checks first-wins on the implementation"""
+    rng = random.Random(seed ^ 0x12c)
+    out = []
+    for _ in range(n):
+        labs = [rng.choice(["a", "A", "b", "ß", "SS", "a b", "A  B"]) for _ in range(2 + rng.randrange(3))]
+        parts = []
+        for i, l in enumerate(labs):
+            d = "[%s]: /u%d \"t%d\"\n" % (l, i, i)
+            w = rng.randrange(4)
+            parts.append(d if w == 0 else "> " + d if w == 1 else "- " + d if w == 2 else "1. > " + d)
+            if rng.random() < 0.5:
+                parts.append("\n")
+        parts.insert(rng.randrange(len(parts) + 1), "[%s] [%s][]\n\n" % (rng.choice(labs), rng.choice(labs)))
+        out.append(("".join(parts).encode(), ""))
+    return out
+
+
+class C12(Check):
+    rule = "label pairs over atoms with multi-character folds, final sigma, Kelvin sign, dotted I, no-break and em spaces, tabs/line endings, escaped brackets, in four placements (expected match computed by an independent normaliser: whitespace collapse + str.casefold); competing definitions in random orders and containers; the general document stream for the closure clause"
+    obligations = [("main", "Clos12full", "C12_closure"), ("main", "Refs12", "extract_is_fold"), ("main", "Refs12", "first_wins_first"), ("main", "Refs12", "first_wins_stable"),
+                   ("main", "Clos12", "parseInlines_closed")]
+    assumptions = ["partial: proved: the closure clause for every input and every matcher (C12_closure), Extract = first-wins fold in source order (extract_is_fold, first_wins_*); label normalisation (case folding through the generated x/text table, whitespace collapse) is tied by the correspondence and judged against Python's str.casefold on generated labels"]
+
+    def jobs(self, seed, tier):
+        lab = label_docs(seed, size(tier, 2500, 100000))
+        order = order_docs(seed, size(tier, 800, 30000))
+        ds = [(d, "") for d in docs(seed, tier, quick=1500, thorough=60000)]
+        c = two_sided("full", "full", proj_refs, "reference map and link references")
+        return [Job("label pairs", lab, corr=c, judge_mode="judge:C12match"),
+                Job("competing definitions", order, corr=c, judge_mode="judge:C12"),
+                Job("documents", ds, corr=c, judge_mode="judge:C12")]
+
+
+reg(C12("C12"))
+
+
+# ---- C14 -----------------------------------------------------------------------------------------
+def nocr_docs(seed, tier, quick, thorough):
+    return [d for d in docs(seed, tier, quick=quick, thorough=thorough, bad=0.0) if b"\r" not in d]
+
+
+class C14(Check):
+    rule = DOC_RULE + "; documents without CR, each also with LF->CRLF, LF->CR and an appended final newline; every block kind left open at end of input"
+    obligations = [("stream", "C14b", "skip_blank_lines"), ("stream", "C14b", "nb_shift"), ("main", "Rec15", "parseSetext_correct"), ("recog", "TB", "parseThematicBreak_correct"),
+                   ("recog", "ATXProof", "parseATXHeading_correct")]
+    assumptions = ["partial: the padding clause is proved for any block machine (nb_shift, with the side condition that a CR-terminated prefix is not followed by LF); the recognizers are proved insensitive to the line-ending style through their equality with declarative definitions; the whole-parser simulation for the CRLF/CR and final-newline clauses is not proved: correspondence on the variants plus the oracle"]
+
+    def jobs(self, seed, tier):
+        base = nocr_docs(seed, tier, 1200, 50000)
+        var = []
+        for d in base:
+            var.append((d, "3"))
+            var.append((d.replace(b"\n", b"\r\n"), "3"))
+            var.append((d.replace(b"\n", b"\r"), "4"))
+            if d and d[-1:] != b"\n":
+                var.append((d + b"\n", "5"))
+        jc = [(d, "") for d in docs(seed, tier, quick=2500, thorough=100000, bad=0.0)]
+        return [Job("line-ending variants", var, corr=two_sided("html", "html", ident, "safe-mode HTML")),
+                Job("documents", jc, judge_mode="judge:C14")]
+
+
+reg(C14("C14"))
+
+
+# ---- C16 / C09 -------------------------------------------------------------------------------------
+class C16(Check):
+    level = "other"
+    rule = DOC_RULE + "; weight on lists ending in blank lines, unclosed fences, HTML blocks, setext headings, definitions followed by text"
+    obligations = [("main", "L2BndS", "parseBlocks_bounds"), ("main", "C01a", "C01_ordered"), ("stream", "C14b", "nb_shift")]
+    assumptions = ["no theorem states the re-parse property yet; what is machine-checked are the supporting invariants (root blocks are cut at ends bounded by the line read; shifting by a blank prefix); the property itself is decided by the re-parse oracle on the implementation and by the full-tree correspondence"]
+
+    def jobs(self, seed, tier):
+        cases = [(d, "") for d in docs(seed, tier, quick=3000, thorough=150000)]
+        return [Job("documents", cases, corr=two_sided("full", "full", proj_kindspans, "(kind, span) trees"), judge_mode="judge:C16")]
+
+    def extra_coverage(self, st):
+        return {"explanation": "re-parse oracle on the implementation (every root block of every case re-parsed through NewBlockParser + Rewrite and compared node by node) plus model/implementation tree correspondence; supporting invariants machine-checked"}
+
+
+reg(C16("C16"))
+
+
+def nest_docs(seed, tier):
+    rng = random.Random(seed ^ 0xc09)
+    toks = [t for t in gen.TOK_B if b"\t" not in t and b"\r" not in t and b"\x00" not in t] + [b"[a](/u \"t\nu\")", b"<b\nc>", b"`a\nb`", b"[a\nb]", b"[a]: /u\n 't\nu'\n", b"===\n", b"---\n"]
+    out = [d for d in gen.corpus() if b"\t" not in d and b"\r" not in d and b"\x00" not in d]
+    n = size(tier, 1500, 60000)
+    while len(out) < n:
+        out.append(gen.soup(rng, nmax=10, toks=toks))
+    return out
+
+
+class C09(Check):
+    level = "other"
+    rule = "tab-free, CR-free documents (spec examples + token soup with multi-line links, titles, raw tags, code spans, setext headings, definitions); quote prefix '> ' and list markers -, +, 7., 12) with 1..4 spaces"
+    obligations = [("main", "L2CCfull", "parseFull_contain"), ("main", "NoPanicAll", "parseBlocks_no_panic")]
+    assumptions = ["no theorem states the nesting property yet; the property is decided by the nesting oracle on the implementation (safe-mode HTML of D vs. of the contents of quote(D) / item(D)) and by the correspondence of model and implementation on D, quote(D) and item(D)"]
+
+    def jobs(self, seed, tier):
+        base = nest_docs(seed, tier)
+        var = []
+        for d in base:
+            var.append((d, "3"))
+            var.append((b"".join(b"> " + l for l in d.splitlines(True)), "3"))
+            ls = d.splitlines(True)
+            if ls and d[:1] not in (b" ", b"\n") and all(l.strip() for l in ls):
+                var.append((b"- " + ls[0] + b"".join(b"  " + l for l in ls[1:]), "3"))
+        return [Job("D, quote(D), item(D)", var, corr=two_sided("html", "html", ident, "safe-mode HTML")),
+                Job("documents", [(d, "") for d in base], judge_mode="judge:C09")]
+
+    def extra_coverage(self, st):
+        return {"explanation": "nesting oracle on the implementation plus model/implementation correspondence on each document and its quoted / list-indented image"}
+
+
+reg(C09("C09"))
+
+
+# ---- C08 -----------------------------------------------------------------------------------------
+def schedules(seed, ds):
+    rng = random.Random(seed ^ 0xc08)
+    out = []
+    for d in ds:
+        n = len(d)
+        kind = rng.randrange(6)
+        if kind == 0:
+            caps = "1." * min(n + 2, 300)
+        elif kind == 1:
+            caps = ".".join(str(rng.choice([0, 1, 2, 3, 7])) for _ in range(min(n + 3, 200)))
+        elif kind == 2:
+            caps = ".".join(str(rng.randrange(0, max(2, n))) for _ in range(6))
+        elif kind == 3:
+            caps = "0.0.0." + str(max(1, n // 2))
+        elif kind == 4:
+            # split right after every CR and inside multi-byte characters / NUL runs
+            cuts, last = [], 0
+            for i, b in enumerate(d):
+                if b in (13, 0) or b >= 0x80:
+                    cuts.append(i + 1 - last)
+                    last = i + 1
+            caps = ".".join(str(c) for c in cuts[:200])
+        else:
+            caps = ""
+        p = "caps=" + caps.strip(".") + ";eager=" + str(rng.randrange(2))
+        if rng.random() < 0.4:
+            p += ";fault=%d:%s" % (rng.randrange(0, n + 1), rng.choice(["E1", "E2"]))
+        out.append((d, p))
+    return out
+
+
+class C08(Check):
+    rule = DOC_RULE + "; each document under a read schedule (1-byte reads, empty reads, random caps, cuts after every CR / inside multi-byte characters and NUL runs, data returned with the final error or not) and, for 40 %, a fault after k bytes with one of two error values; plus inputs straddling the 8 KiB chunk size"
+    obligations = [("stream", "ReaderProof", "readline_sim"), ("stream", "BPProof", "next_block_sim"), ("stream", "C08", "C08_stream_eq"), ("stream", "C08", "C08_fault"),
+                   ("stream", "ReaderProof", "read_spec")]
+    assumptions = ["C08_stream_eq / C08_fault are proved for the stream-layer model (readline, NextBlock, makeRoot) over an arbitrary block machine satisfying three stated laws, for every input below the block-size limit, every read schedule and every fault point; the tie of that model to parse.go is the correspondence below (streaming implementation vs. in-memory model on the delivered prefix) plus the Read-call log",
+                   "Extract and Rewrite are functions of the blocks, so equality of trees and reference map follows from equality of the blocks"]
+
+    def jobs(self, seed, tier):
+        ds = docs(seed, tier, quick=1800, thorough=80000, bad=0.1)
+        rng = random.Random(seed ^ 0x8192)
+        for _ in range(size(tier, 6, 100)):
+            pre = gen.soup(rng, nmax=8) * (8192 // 20)
+            ds.append((pre + b"\n")[: 8192 - rng.randrange(4)] + rng.choice([b"\r\n", b"\r", b"\n", b"\x00\x00", "é".encode()]) + gen.soup(rng))
+        cases = schedules(seed, ds)
+
+        def corr(cases):
+            a = run.harness("stream", lines_of(cases))
+            pref = []
+            for c, p in cases:
+                m = re.search(r"fault=(\d+)", p)
+                k = min(int(m.group(1)), len(c)) if m else len(c)
+                pref.append(c[:k].hex())
+            b = run.model("full", pref)
+            out = []
+            for i, (x, y) in enumerate(zip(a, b)):
+                xp = x.split("\t")
+                if xp[0] != y:
+                    out.append((i, xp[0], y, "blocks, trees and reference map: streaming implementation vs in-memory model on the delivered prefix"))
+                    continue
+                want = "EOF"
+                m = re.search(r"fault=(\d+):(E\d)", cases[i][1])
+                if m:
+                    want = m.group(2)
+                if len(xp) < 3 or xp[1] != "E:" + want or xp[2] != "X:%s,%s,%s" % (want, want, want):
+                    out.append((i, "\t".join(xp[1:3]), "E:" + want, "final error and its persistence"))
+            return out
+        return [Job("documents x schedules", cases, corr=corr, judge_mode="judge:C08")]
+
+
+reg(C08("C08"))
+
+
+# ---- C15 -----------------------------------------------------------------------------------------
+LINE_ALPHA = {
+    "thematic/setext/bullet": [b"-", b"*", b"_", b"=", b" ", b"\t", b"a", b"+"],
+    "atx": [b"#", b" ", b"\t", b"a", b"\\", b"#"],
+    "fence": [b"`", b"~", b" ", b"a", b"\t"],
+    "ordered": [b"1", b"0", b"9", b".", b")", b" ", b"a", b"\t"],
+}
+
+
+def recog_lines(seed, tier):
+    L = 5 if tier == "quick" else 6 if tier == "search" else 7
+    out = set()
+    for name, al in LINE_ALPHA.items():
+        al = list(dict.fromkeys(al))
+        for s in gen.strings_over(al, L):
+            out.add(s)
+    out = sorted(out)
+    withnl = []
+    rng = random.Random(seed ^ 0xc15)
+    for s in out:
+        withnl.append(s + rng.choice([b"", b"\n", b"\r\n", b"\r"]))
+    allsyms = [b"-", b"*", b"_", b"=", b"#", b"`", b"~", b"+", b" ", b"\t", b"a", b"1", b"9", b".", b")", b"\\", "é".encode(), b"123456789", b"1234567890", b"```", b"~~~~", b"###### ", b"####### "]
+    for _ in range(size(tier, 3000, 200000)):
+        k = 1 + rng.randrange(30)
+        withnl.append(b"".join(rng.choice(allsyms) for _ in range(k)) + rng.choice([b"", b"\n", b"\r\n", b"\r"]))
+    return withnl
+
+
+URI_ALPHA = [b"a", b"%", b"4", b"G", b"g", b" ", b"/", b"?", "é".encode(), b"\xff", b"[", b"\\", b"<", b"\"", b"&", b"#", b"~", b"^", b"\x7f", b"\x01", b"%41", b"%e9", b"%zz", "日".encode(), b"+", b"|"]
+EMAIL_ALPHA = [b"a", b"Z", b"0", b"@", b".", b"-", b"_", b"+", b"!", b" ", "é".encode(), b"<", b"a" * 63, b"b" * 64, b"-a", b"a-", b"..", b"x.y"]
+
+
+def strings_rand(seed, alpha, L, n):
+    out = list(gen.strings_over(alpha[:8], L))
+    rng = random.Random(seed)
+    for _ in range(n):
+        out.append(b"".join(rng.choice(alpha) for _ in range(1 + rng.randrange(12))))
+    return out
+
+
+class C15(Check):
+    rule = "all 256 byte values (classifier table, exhaustive); all lines up to length 5 (quick) / 7 (thorough) over the alphabet each recognizer distinguishes, with each line-ending style, plus random lines to length 30 (with 9- and 10-digit numbers, 6 and 7 hashes); URI and e-mail strings exhaustively to length 4 over 8 symbols plus random strings over 18-26 symbols; non-trivial = non-empty"
+    obligations = [("recog", "TB", "parseThematicBreak_correct"), ("recog", "TB", "parseThematicBreak_none"), ("recog", "ATXProof", "parseATXHeading_correct"), ("main", "Rec15", "parseSetext_correct"),
+                   ("main", "Rec15", "punct_spec"), ("main", "Rec15", "hex_spec"), ("main", "Rec15", "control_spec"), ("main", "Rec15", "ws_spec"), ("main", "Rec15", "letter_spec"),
+                   ("main", "Rec16", "parseListMarker_sound"), ("main", "Rec16", "parseListMarker_complete"), ("main", "Rec16", "parseListMarker_none"), ("main", "Rec16", "ordered_number_range"),
+                   ("main", "Rec17", "parseCodeFence_sound"), ("main", "Rec17", "parseCodeFence_complete"), ("main", "Rec17", "parseCodeFence_none"),
+                   ("main", "Rec18", "email_iff"), ("main", "Rec18", "isEmailAddress_iff"),
+                   ("main", "Rec19", "normalizeURI_alphabet"), ("main", "Rec19", "normalizeURI_idempotent"), ("main", "Rec19", "normalizeURI_fix"),
+                   ("main", "TieGen", "tie_classifiers"), ("main", "TieGen", "tie_constants")]
+    assumptions = ["every clause has its theorem on the model (recognizers = declarative definitions on every line; classifiers over all 256 bytes by computation; e-mail grammar; URI alphabet, well-formed escapes, idempotence); the byte classifiers' bodies and the constants are regenerated from /repo's source on every run (TieGen), the recognizers are tied by the correspondence through the verif hook",
+                   "parseATXHeading_correct is proved on the recognizer without the escaped-trailing-space rule; the implementation's rule (known finding D22) is modelled in main/Recog.v and excluded from the oracle by signature"]
+
+    def jobs(self, seed, tier):
+        lines = [(l, "") for l in recog_lines(seed, tier)]
+        uris = [(s, "") for s in strings_rand(seed ^ 1, URI_ALPHA, 4 if tier != "thorough" else 5, size(tier, 3000, 200000))]
+        mails = [(s, "") for s in strings_rand(seed ^ 2, EMAIL_ALPHA, 4 if tier != "thorough" else 5, size(tier, 3000, 200000))]
+
+        def class_corr(cases):
+            a = subprocess.run([os.path.join(build.BIN, "harness"), "class"], stdout=subprocess.PIPE).stdout.decode()
+            b = subprocess.run([os.path.join(build.BIN, "drv"), "class"], input=b"00\n", stdout=subprocess.PIPE).stdout.decode()
+            al, bl = [x for x in a.split("\n") if x], [x for x in b.split("\n") if x]
+            return [(0, x, y, "classifier table row") for x, y in zip(al, bl) if x != y][:1] + ([(0, str(len(al)), str(len(bl)), "table size")] if len(al) != len(bl) else [])
+        return [Job("lines", lines, corr=two_sided("recog", "recog", ident, "recognizer results"), judge_mode="judge:C15"),
+                Job("uri", uris, corr=two_sided("uri", "uri", ident, "NormalizeURI"), judge_mode="judge:C15uri"),
+                Job("email", mails, corr=two_sided("email", "email", ident, "parseEmail/IsEmailAddress"), judge_mode="judge:C15email"),
+                Job("classifier table (256 bytes, exhaustive)", [(b"\x00", "")], corr=class_corr, judge_mode="judge:C15class", nontrivial=lambda c: True)]
+
+    def extra_coverage(self, st):
+        return {"exhaustive_parts": "classifier table over all 256 bytes; lines/URI/e-mail strings exhaustive up to the stated lengths"}
+
+
+reg(C15("C15"))
+
+
+# ---- C18 -----------------------------------------------------------------------------------------
+def policies(seed, ds):
+    rng = random.Random(seed ^ 0xc18)
+    out = []
+    for d in ds:
+        parts = []
+        r = rng.random()
+        if r < 0.5:
+            parts.append("prune=" + ".".join(str(rng.randrange(40)) for _ in range(rng.randrange(5))))
+        if rng.random() < 0.4:
+            parts.append("abort=%d" % rng.randrange(30))
+        if rng.random() < 0.15:
+            parts.append("nopre")
+        elif rng.random() < 0.15:
+            parts.append("nopost")
+        v = rng.random()
+        if v < 0.25:
+            parts.append("virt=root")
+        elif v < 0.45:
+            parts.append("virt=rev")
+        out.append((d, ";".join(p for p in parts if p != "prune=")))
+    return out
+
+
+class C18(Check):
+    rule = DOC_RULE + "; each parsed tree under a callback policy: prune set by pre-visit number, abort point by post-visit number, nil Pre or nil Post, custom child functions presenting a virtual root over all root blocks or reversing every child list"
+    obligations = [("walk", "W2P", "run_refines_spec"), ("walk", "W2C", "walk_cursors_ok"), ("walk", "W2V", "visit_once"), ("walk", "W2V", "tour_length"), ("main", "WalkG", "walk_is_spec")]
+    assumptions = ["full on the model: the explicit-stack machine of walk.go (frames, post flags, cursor construction) equals the recursive traversal for every tree, every pair of callbacks over any user state, and every cursor satisfies the parent/index/nearest-block invariant; custom child functions are folded into the tree walked; the model is tied to walk.go by event traces on the implementation's trees under random policies"]
+
+    def jobs(self, seed, tier):
+        ds = docs(seed, tier, quick=2500, thorough=100000)
+        cases = policies(seed, ds)
+
+        def corr(cases):
+            a = run.harness("walk", lines_of(cases))
+            m_in = []
+            for x, (c, p) in zip(a, cases):
+                m_in.append(x.split("\t")[0] + "\t" + p)
+            b = run.run("drvwalk", "trace", m_in)
+            out = []
+            for i, (x, y) in enumerate(zip(a, b)):
+                xp = x.split("\t")
+                if len(xp) < 2 or xp[1] != y:
+                    out.append((i, xp[1] if len(xp) > 1 else x, y, "Walk event trace (pre/post, node, parent, nearest block, index)"))
+            return out
+        return [Job("trees x policies", cases, corr=corr, judge_mode="judge:C18")]
+
+
+reg(C18("C18"))
+
+
+# ---- C06 -----------------------------------------------------------------------------------------
+class C06(Check):
+    level = "other"
+    rule = "abstract documents (paragraphs, ATX/setext headings, thematic breaks, fenced/indented code, block quotes, tight/loose bullet and ordered lists nested to depth 3, HTML blocks, definitions; text, escapes, entities, emphasis, code spans, inline/reference links, images, autolinks, raw tags, hard and soft breaks) serialised with random choices of marker characters, fence lengths, indentation widths, LF/CRLF and escaping style; expected HTML from the generator's own denotation; distinct by serialisation"
+    obligations = [("main", "C07final", "C07_final"), ("main", "RenderWalkProof", "C10_appendBlock"), ("recog", "ATXProof", "parseATXHeading_correct"), ("main", "Rec17", "parseCodeFence_sound")]
+    assumptions = ["the whole-pipeline statement (render (parse (serialize d)) = denote d) is not proved; supporting theorems (recognizers = definitions, renderer = structural reading) are machine-checked; the property is decided by the oracle comparing the implementation's HTML with the generator's denotation, and by the model/implementation correspondence on the same serialisations",
+                   "the abstract-document generator and its denotation (lib/docgen.py) are trusted to follow the CommonMark 0.30 text"]
+
+    def jobs(self, seed, tier):
+        import docgen
+        docs_ = docgen.documents(seed, size(tier, 2500, 100000), style="any")
+        cases = [(md, html.hex()) for md, html in docs_]
+        hcases = [(md, "0") for md, _ in docs_]
+        return [Job("serialised abstract documents", hcases, corr=two_sided("html", "html", ident, "HTML (default configuration)")),
+                Job("denotation", cases, judge_mode="judge:C06")]
+
+    def extra_coverage(self, st):
+        return {"explanation": "denotation oracle on the implementation plus model/implementation HTML correspondence on serialised abstract documents"}
+
+
+reg(C06("C06"))
+
+
+# ---- C19 -----------------------------------------------------------------------------------------
+class C19(Check):
+    level = "other"
+    rule = "race-detector runs: N goroutines parsing distinct documents while M goroutines render (all 30 configurations, one shared renderer value per configuration), format and walk one shared tree; every result compared with the sequential result"
+    obligations = [("misc", "Interleave", "schedule_independent"), ("misc", "Interleave", "race_free"), ("main", "TieEffects", "no_shared_writes")]
+    assumptions = ["a pure functional model has no interleavings: the logic part is the generic theorem (threads whose writes stay in private regions and whose reads stay in private or frozen regions are schedule independent and race free); its premise is instantiated by the effect summary generated from /repo's typed AST on every run (GenEffects.v: writes through package-level variables or through the shared tree/renderer types in the render/format/walk closure), whose soundness is trusted, not proved",
+                   "the Go memory model and the race detector supply the runtime side: a -race build of the harness runs the concurrent workload"]
+
+    def jobs(self, seed, tier):
+        return []
+
+    def extra_violations(self, st, tier, seed):
+        out = []
+        rc, log = race_run(seed, tier)
+        self._race = {"rc": rc, "log_tail": log[-600:]}
+        if rc != 0:
+            out.append(("race-detector run reports a data race or a result differing from the sequential one", log[-2000:]))
+        return out
+
+    def extra_coverage(self, st):
+        r = getattr(self, "_race", {})
+        return {"explanation": "generic schedule-independence theorem + generated effect summary (no shared writes) + race-detector workload", "race_run": r,
+                "evaluations": r.get("evaluations", 2), "distinct_nontrivial": r.get("evaluations", 2)}
+
+
+def race_run(seed, tier):
+    godir = os.path.join(build.VERIF, "go")
+    exe = os.path.join(build.BIN, "harness_race")
+    rc, out = build.sh("go build -race -tags verif -o %s ./harness" % exe, cwd=godir, env=build.GOENV)
+    if rc != 0:
+        return 1, "race build failed: " + out
+    n = "40" if tier == "quick" else "400"
+    rc, out = build.sh([exe, "race", str(seed), n], env=dict(os.environ, GORACE="halt_on_error=1"), timeout=3000)
+    return rc, out
+
+
+reg(C19("C19"))
